@@ -102,8 +102,10 @@ class NormalForm:
         return [e for e in self.effects if e.kind == "expr" and (want is None or e.text() == want)]
 
     def calls(self, callee: str) -> list[Effect]:
-        """Expression-statement effects that are a call of `callee` (dotted text, ordinals ignored)."""
-        return [e for e in self.effects if e.kind == "expr" and e.text().startswith(callee + "(")]
+        """Effects that are a call of `callee` (dotted text, ordinals ignored): as a statement, or with its result bound
+        to a local / returned."""
+        return [e for e in self.effects if e.kind in ("expr", "ret") and e.text().startswith(callee + "(")] + \
+            [e for e in self.effects if e.kind == "set" and e.target.startswith("$") and e.text().startswith(callee + "(")]
 
     def sets(self, target: str) -> list[Effect]:
         want = canon(target) if not target.startswith("$") else target
